@@ -22,8 +22,6 @@ import (
 	"github.com/plgd-dev/go-coap/v3/message/pool"
 	"github.com/plgd-dev/go-coap/v3/net/client"
 	"github.com/plgd-dev/go-coap/v3/options"
-	"github.com/plgd-dev/go-coap/v3/tcp"
-	"github.com/plgd-dev/go-coap/v3/udp"
 	"pgregory.net/rapid"
 
 	"verif/bubble"
@@ -32,6 +30,7 @@ import (
 	"verif/memnet"
 	"verif/peer"
 	"verif/refcodec"
+	"verif/roles"
 	"verif/wire"
 )
 
@@ -46,6 +45,9 @@ type wireScenario struct {
 	Total     int      `json:"total"`
 	PerPath   int      `json:"perPath"`
 	Ops       []wireOp `json:"ops"`
+	// Role: "" a client connection; "server" the connection a tcp / dtls server creates for an
+	// accepted peer (server applications issue requests on those, too)
+	Role string `json:"role,omitempty"`
 }
 
 type wireClient interface {
@@ -60,26 +62,30 @@ func execWire(t *testing.T, sc wireScenario) *evid.Failure {
 		var cc wireClient
 		var w wire.Wire
 		var tk endpoints.Ticker
+		stopRole := func() {}
 		if sc.Transport == "udp" {
 			link := memnet.NewPacketLink(memnet.LinkCfg{LatencyMs: 1})
-			cc = endpoints.UDP(link.A, []udp.Option{
+			c, stop, err := roles.Packet(sc.Role, link, bubble.Wait,
 				options.WithMessagePool(pool.New(8, 2048)), options.WithPeriodicRunner(tk.Runner()),
 				options.WithBlockwise(false, 6, time.Second),
 				options.WithLimitClientParallelRequest(int64(sc.Total)), options.WithLimitClientEndpointParallelRequest(int64(sc.PerPath)),
 				options.WithTransmission(64, time.Hour, 2),
-			}...)
-			w = wire.UDP(link)
-		} else {
-			link := memnet.NewStreamLink(memnet.StreamCfg{})
-			c, err := endpoints.TCP(link.A, []tcp.Option{
-				options.WithMessagePool(pool.New(8, 2048)), options.WithPeriodicRunner(tk.Runner()),
-				options.WithBlockwise(false, 6, time.Second), options.WithCloseSocket(),
-				options.WithLimitClientParallelRequest(int64(sc.Total)), options.WithLimitClientEndpointParallelRequest(int64(sc.PerPath)),
-			}...)
+			)
 			if err != nil {
 				panic(err)
 			}
-			cc, w = c, wire.TCP(link)
+			cc, w, stopRole = c, wire.UDP(link), stop
+		} else {
+			link := memnet.NewStreamLink(memnet.StreamCfg{})
+			c, stop, err := roles.Stream(sc.Role, link, bubble.Wait,
+				options.WithMessagePool(pool.New(8, 2048)), options.WithPeriodicRunner(tk.Runner()),
+				options.WithBlockwise(false, 6, time.Second), options.WithCloseSocket(),
+				options.WithLimitClientParallelRequest(int64(sc.Total)), options.WithLimitClientEndpointParallelRequest(int64(sc.PerPath)),
+			)
+			if err != nil {
+				panic(err)
+			}
+			cc, w, stopRole = c, wire.TCP(link), stop
 		}
 		bubble.Wait()
 		_ = w.FromLib()
@@ -201,6 +207,7 @@ func execWire(t *testing.T, sc wireScenario) *evid.Failure {
 			}
 		}
 		_ = cc.Close()
+		stopRole()
 		bubble.Wait()
 	})
 	if fail != nil {
@@ -238,6 +245,9 @@ func describeWire(in []wirePending) string {
 func genWire(t *rapid.T) wireScenario {
 	sc := wireScenario{Transport: rapid.SampledFrom([]string{"udp", "tcp"}).Draw(t, "transport"),
 		Total: rapid.SampledFrom([]int{1, 1, 2, 3}).Draw(t, "total"), PerPath: rapid.SampledFrom([]int{1, 1, 2}).Draw(t, "perpath")}
+	if rapid.IntRange(0, 2).Draw(t, "role") == 0 {
+		sc.Role = "server"
+	}
 	n := rapid.IntRange(2, 14).Draw(t, "nops")
 	nobs := 0
 	for i := 0; i < n; i++ {
@@ -282,6 +292,9 @@ func wireEngine(t *testing.T, r *evid.Run) evid.Engine {
 				key = string(b)
 			}
 			cls := []string{"wire/" + sc.Transport}
+			if sc.Role == "server" {
+				cls = append(cls, "wire/connection-created-by-a-server")
+			}
 			if cancels > 0 {
 				cls = append(cls, "wire/with-observation-cancel")
 			}
